@@ -35,12 +35,13 @@ var openHooks sync.Map
 var castagnoli = crc32.MakeTable(crc32.Castagnoli)
 
 type koOpts struct {
-	cid                 int
-	strictMan, strictJ  bool
-	jck                 bool
-	wbuf                int
-	maxman              int64
-	blockSize, restartI int
+	cid                  int
+	strictMan, strictJ   bool
+	jck                  bool
+	wbuf                 int
+	maxman               int64
+	blockSize, restartI  int
+	errMissing, errExist bool
 }
 
 func (k koOpts) options(ro bool) *opt.Options {
@@ -57,7 +58,7 @@ func (k koOpts) options(ro bool) *opt.Options {
 	return &opt.Options{
 		WriteBuffer: k.wbuf, MaxManifestFileSize: k.maxman, Compression: opt.NoCompression,
 		BlockSize: k.blockSize, BlockRestartInterval: k.restartI, Comparer: vlib.ComparerByID(k.cid),
-		ReadOnly: ro, Strict: st,
+		ReadOnly: ro, Strict: st, ErrorIfMissing: k.errMissing, ErrorIfExist: k.errExist,
 		// nothing but the recovery itself may touch the storage while it is observed
 		CompactionL0Trigger: 1000, WriteL0SlowdownTrigger: 2000, WriteL0PauseTrigger: 3000,
 		CompactionTotalSize: 1 << 30, DisableSeeksCompaction: true, DisableBlockCache: true,
@@ -87,6 +88,7 @@ type koObs struct {
 	after     [][4]uint64
 	metaAfter int64 // -1: none
 	contents  map[string][]byte
+	scanErr   string
 }
 
 func errClass(err error) int {
@@ -185,9 +187,10 @@ func observeOpen(img *vstor.Stor, k koOpts, ro bool) (obs *koObs, after *vstor.S
 	}
 	got, serr := wl.Scan(db)
 	closeDB(db)
-	if serr != nil {
-		obs.fail, obs.class, obs.errText = true, 9, "scan: "+serr.Error()
-		return obs, nil
+	scanFailed := serr != nil // a table the version names is unreadable: Open itself does not look (directed cases)
+	if scanFailed {
+		got = map[string][]byte{}
+		obs.scanErr = serr.Error()
 	}
 	obs.contents = got
 	var opened []storage.FileDesc
@@ -203,7 +206,7 @@ func observeOpen(img *vstor.Stor, k koOpts, ro bool) (obs *koObs, after *vstor.S
 		}
 	}
 	// the batches kept from the journals the recovery read, in the order it read them
-	obs.keptKnown = k.jck
+	obs.keptKnown = k.jck && !scanFailed
 	cur := stSeq
 	for _, fd := range opened {
 		data, _, ok := img.FileBytes(fd)
@@ -378,6 +381,11 @@ func sameContents(a, b map[string][]byte) string {
 
 // openCase observes one image under both modes and renders the K case; P: idempotence of Open.
 func openCase(img *vstor.Stor, k koOpts, res *vlib.Result, maxBytes, maxText int) (text string, pmsg string) {
+	return openCaseD(img, k, res, maxBytes, maxText, false)
+}
+
+// openCaseD: directed = the image was damaged on purpose (no property oracle, correspondence only).
+func openCaseD(img *vstor.Stor, k koOpts, res *vlib.Result, maxBytes, maxText int, directed bool) (text string, pmsg string) {
 	fds := img.ListAll()
 	total := 0
 	var fls []string
@@ -396,7 +404,24 @@ func openCase(img *vstor.Stor, k koOpts, res *vlib.Result, maxBytes, maxText int
 	}
 	roObs, _ := observeOpen(img, k, true)
 	rwObs, after := observeOpen(img, k, false)
-	if !rwObs.fail && !roObs.fail {
+	if directed {
+		if after != nil {
+			after.Discard()
+		}
+		text = fmt.Sprintf("KOpenBytes %d %s %s %s %s %s %s %s %s %d %d %s [%s]\n   %s\n   %s", k.cid,
+			vlib.CoqHex([]byte(vlib.ComparerByID(k.cid).Name())), vlib.CoqBool(k.strictMan), vlib.CoqBool(k.strictJ), vlib.CoqBool(k.jck),
+			vlib.CoqBool(k.errMissing), vlib.CoqBool(k.errExist), coqZi(int64(k.wbuf)), coqZi(k.maxman), k.blockSize, k.restartI, coqOptN(meta),
+			strings.Join(fls, ";\n    "), rwObs.coq(), roObs.coq())
+		res.Count("ko_directed", 1)
+		if rwObs.fail {
+			res.Count(fmt.Sprintf("ko_directed_rw_error_class_%d", rwObs.class), 1)
+		}
+		return text, ""
+	}
+	if !rwObs.fail && rwObs.scanErr != "" {
+		pmsg = "scan of the recovered DB fails: " + rwObs.scanErr
+	}
+	if !rwObs.fail && !roObs.fail && pmsg == "" {
 		if m := sameContents(roObs.contents, rwObs.contents); m != "" {
 			pmsg = "read-only and read-write Open of the same image disagree on the contents: " + m
 		}
@@ -434,9 +459,9 @@ func openCase(img *vstor.Stor, k koOpts, res *vlib.Result, maxBytes, maxText int
 	if after != nil {
 		after.Discard()
 	}
-	text = fmt.Sprintf("KOpenBytes %d %s %s %s %s %s %s %d %d %s [%s]\n   %s\n   %s", k.cid,
+	text = fmt.Sprintf("KOpenBytes %d %s %s %s %s %s %s %s %s %d %d %s [%s]\n   %s\n   %s", k.cid,
 		vlib.CoqHex([]byte(vlib.ComparerByID(k.cid).Name())), vlib.CoqBool(k.strictMan), vlib.CoqBool(k.strictJ), vlib.CoqBool(k.jck),
-		coqZi(int64(k.wbuf)), coqZi(k.maxman), k.blockSize, k.restartI, coqOptN(meta), strings.Join(fls, ";\n    "), rwObs.coq(), roObs.coq())
+		vlib.CoqBool(k.errMissing), vlib.CoqBool(k.errExist), coqZi(int64(k.wbuf)), coqZi(k.maxman), k.blockSize, k.restartI, coqOptN(meta), strings.Join(fls, ";\n    "), rwObs.coq(), roObs.coq())
 	if len(text) > maxText {
 		res.Count("ko_skipped_text_too_big", 1)
 		return "", pmsg
@@ -563,6 +588,87 @@ func kOpenCases(root *vlib.RNG, res *vlib.Result, want, maxBytes, maxText int) (
 		}
 		out.stor.Discard()
 	}
+	return cases
+}
+
+// kOpenDirected: the branches of Open that crash images do not reach — an empty storage (create), ErrorIfMissing,
+// ErrorIfExist, files without a meta pointer, a meta pointer to a manifest that is gone, a live table that is gone.
+func kOpenDirected(root *vlib.RNG, res *vlib.Result) (cases []string) {
+	r := root.Fork()
+	base := koOpts{cid: 0, jck: true, wbuf: 1024, maxman: 64 << 20, blockSize: 256, restartI: 4}
+	add := func(img *vstor.Stor, k koOpts) {
+		if t, _ := openCaseD(img, k, res, 1<<20, 200000, true); t != "" {
+			cases = append(cases, t)
+		}
+		img.Discard()
+	}
+	// 1-3: empty storage
+	add(vstor.New(true), base)
+	k := base
+	k.errMissing = true
+	add(vstor.New(true), k)
+	k = base
+	k.maxman = 1
+	add(vstor.New(true), k)
+	// a small closed DB
+	var w *wl.Workload
+	var out *runOut
+	for t := 0; t < 8; t++ {
+		w = genOpenWorkload(r)
+		w.Cfg.CmpID = 0
+		out = runWorkload(w)
+		if out.err == "" {
+			break
+		}
+	}
+	if out == nil || out.err != "" {
+		return
+	}
+	base.blockSize, base.restartI = w.Cfg.BlockSize, w.Cfg.RestartInterval
+	final := func() *vstor.Stor { return out.stor.Clone(true) }
+	if tot := out.stor.TotalBytes(storage.TypeAll); tot > 60000 {
+		res.Count("ko_directed_db_too_big", 1)
+		return
+	}
+	k = base
+	k.errExist = true
+	add(final(), k)
+	// files without a meta pointer
+	img := final()
+	img.ClearMeta()
+	add(img, base)
+	// the manifest the pointer names is gone
+	img = final()
+	if m, ok := img.Meta(); ok {
+		img.DeleteFile(m)
+		add(img, base)
+	}
+	// a live table is gone
+	img = final()
+	for _, fd := range img.ListAll() {
+		if fd.Type == storage.TypeTable {
+			img.DeleteFile(fd)
+			add(img, base)
+			img = nil
+			break
+		}
+	}
+	if img != nil {
+		img.Discard()
+	}
+	// a stray journal above everything, a stray table, a temp file, an older manifest
+	img = final()
+	hi := int64(0)
+	for _, fd := range img.ListAll() {
+		if fd.Num > hi {
+			hi = fd.Num
+		}
+	}
+	img.SetFileBytes(storage.FileDesc{Type: storage.TypeTable, Num: hi + 3}, []byte("stray"))
+	img.SetFileBytes(storage.FileDesc{Type: storage.TypeTemp, Num: hi + 4}, []byte("tmp"))
+	img.SetFileBytes(storage.FileDesc{Type: storage.TypeJournal, Num: hi + 7}, nil)
+	add(img, base)
+	out.stor.Discard()
 	return cases
 }
 
